@@ -10,10 +10,13 @@ def pre_tiff(VERIF):
         h.what_extra = "translation validated on %d scenarios (byte-identical files)" % n
     return pre
 HAL = "acquire-core-libs/src/acquire-device-hal/device/hal/"
-def tiff_h(H, VERIF, name, defines, unwind, timeout=1500, solver="cadical", mem=24, unwindset=None, rec_violation=False, composite=False):
+def tiff_h(H, VERIF, name, defines, unwind, timeout=1500, solver="cadical", mem=24, unwindset=None, rec_violation=False, composite=False, full=False):
     if composite:
-        h = tiff_h(H, VERIF, name, defines + ["DEV=2"], unwind, timeout, solver, mem, unwindset, rec_violation)
-        h.pre = pre_sbs(VERIF)
+        h = tiff_h(H, VERIF, name, defines + ["DEV=2"] + (["SBS_FULL=1"] if full else []), unwind, timeout, solver, mem, unwindset, rec_violation)
+        h.pre = pre_sbs(VERIF, full)
+        if full:
+            for k, v in (("path_is.0", 17), ("_ZNKSt10filesystem7__cxx114path11parent_pathEv.0", 17), ("_ZNKSt10filesystem7__cxx114path11parent_pathEv.1", 17), ("_ZNSt10filesystem7__cxx114pathdVERKS1_.0", 17), ("strlen.0", 20)):
+                h.unwindset.setdefault(k, v)
         return h
     unwindset = dict(unwindset or {})
     for k, v in (("vsnprintf.0", 142), ("vsnprintf.1", 142), ("vsnprintf.2", 142), ("key_before.0", 22)):
@@ -34,14 +37,14 @@ def sbs_step3_text(repo):
     b = src.index("} catch", a)
     return re.sub(r"\s+", " ", src[a:b]).strip()
 
-def pre_sbs(VERIF):
+def pre_sbs(VERIF, full=False):
     base = pre_tiff(VERIF)
     def pre(h, d, runner):
         base(h, d, runner)
         import gen, subprocess
         repo = os.environ.get("VERIF_REPO", "/repo")
         exp = open(os.path.join(VERIF, "harness/storage/sbs_start_step3.expected")).read().strip()
-        got = sbs_step3_text(repo)
+        got = sbs_step3_text(repo) if not full else exp
         if got != exp:
             raise RuntimeError("side_by_side_tiff_start (steps 2-3) differs from the text the harness models by hand; update SBS_START_STEP3 in harness/storage/tiff_file.c and sbs_start_step3.expected")
         incs = ["-I" + os.path.join(repo, i) for i in gen.INC]
@@ -49,7 +52,14 @@ def pre_sbs(VERIF):
         gen.sh(["clang++-14", "-std=gnu++20", "-O1", "-fno-vectorize", "-fno-slp-vectorize", "-fno-unroll-loops", "-DNDEBUG"] + incs +
                ["-S", "-emit-llvm", "-o", ll, os.path.join(repo, "acquire-driver-common/src/storage/side-by-side-tiff.cpp")])
         env = dict(os.environ); env["IR2C_RPO"] = "1"
-        gen.sh([sys.executable, os.path.join(VERIF, "ir2c", "ir2c.py"), ll, c] + SBS_WANT, env=env)
+        want = SBS_WANT
+        if full:
+            # the whole unit (set and start included) in unwinding mode; std::filesystem is modelled by the harness
+            import re
+            env["IR2C_EH"] = "1"; env["IR2C_TYPED_ALLOCA"] = "1"
+            want = [mm.group(1).strip('"') for mm in (re.search(r'@("[^"]+"|[\w.$]+)\(', l) for l in open(ll) if l.startswith("define ")) if mm]
+            want = [w for w in want if w != "__clang_call_terminate" and not w.startswith("_GLOBAL__sub_I") and not w.startswith("__cxx_global_var_init")]
+        gen.sh([sys.executable, os.path.join(VERIF, "ir2c", "ir2c.py"), ll, c] + want, env=env)
         # the composite object is handed out by the harness as a TYPED static object (see tiff_file.c)
         txt = open(c).read()
         assert "malloc(496ULL)" in txt, "size of struct SideBySideTiff changed: update struct sbs in the harness"
